@@ -192,7 +192,7 @@ func (b *c17Bind) encryptCases() {
 				pt := rng.Bytes(size)
 				caseKey := fmt.Sprintf("%s|v%d|%d|a%d", s.name(), reqVer, size, len(aad))
 				r.Eval(1)
-				r.Nontrivial(caseKey)
+				r.Nontrivial(fmt.Sprintf("%s|%x|%x|%x", caseKey, pt[:min(len(pt), 16)], b.kctx, aad))
 				d := b.withCtx(map[string]any{"plaintext": c17b64(pt)}, b.kctx)
 				if reqVer != 0 {
 					d["key_version"] = reqVer
